@@ -7,10 +7,12 @@ import (
 	"fmt"
 	"os"
 	"path/filepath"
+	"sort"
 	"strings"
 	"testing"
 	"time"
 
+	lcommon "github.com/blinklabs-io/gouroboros/ledger/common"
 	"github.com/blinklabs-io/gouroboros/pipeline"
 	pcommon "github.com/blinklabs-io/gouroboros/protocol/common"
 	rt "github.com/blinklabs-io/gouroboros/verifrt"
@@ -210,6 +212,126 @@ func c42n(name, items string, workers int, stopAfter int, nStop int) e1lib.Scena
 	return e1lib.Scenario{Name: name, Body: body, Check: check, Cfg: rt.Config{Horizon: 5 * time.Second, TimeJumps: false}}
 }
 
+// c42v: validation ENABLED (one validate worker; the static nonce does not match the fixtures, so every
+// block fails validation: it must be reported on Errors(), never applied, and still appear on Results()),
+// the context given to Start() outlives the pipeline, the results consumer is slow (virtual 5 ms per item)
+// so that the stages saturate, and Stop() is called after stopAfter submissions (-1: after a drain).
+func c42v(name string, n int, stopAfter int) e1lib.Scenario {
+	body := func() {
+		ctx := vcontext.Background()
+		p := pipeline.NewBlockPipeline(
+			pipeline.WithSkipBodyHashValidation(true),
+			pipeline.WithDecodeWorkers(1),
+			pipeline.WithValidateWorkers(1),
+			pipeline.WithPrefetchBufferSize(1),
+			pipeline.WithEta0Provider(pipeline.StaticEta0Provider(strings.Repeat("00", 32))),
+			pipeline.WithSlotsPerKesPeriod(129600),
+			pipeline.WithVerifyConfig(lcommon.VerifyConfig{SkipBodyHashValidation: true, SkipTransactionValidation: true, SkipStakePoolValidation: true}),
+			pipeline.WithApplyFunc(func(b *pipeline.BlockItem) error {
+				rt.Log("apply %d", b.SequenceNumber())
+				return nil
+			}),
+		)
+		if err := p.Start(ctx); err != nil {
+			rt.Log("start error %v", err)
+			return
+		}
+		resDone := make(chan struct{})
+		rt.Go("results", func() {
+			for it := range rt.Range("h:results", p.Results()) {
+				rt.Log("result %d applied=%v", it.SequenceNumber(), it.IsApplied())
+				vtime.Sleep(5 * time.Millisecond)
+			}
+			rt.Close("h:resDone", resDone)
+		})
+		errDone := make(chan struct{})
+		rt.Go("errors", func() {
+			for range rt.Range("h:errors", p.Errors()) {
+				rt.Log("error reported")
+			}
+			rt.Close("h:errDone", errDone)
+		})
+		stopGo := make(chan struct{})
+		stopped := make(chan struct{})
+		if stopAfter >= 0 {
+			rt.Go("stopper", func() {
+				rt.Recv("h:stopGo", stopGo)
+				p.Stop()
+				rt.Close("h:stopped", stopped)
+			})
+		}
+		f := fixtures['S']
+		for i := 0; i < n; i++ {
+			if i == stopAfter {
+				rt.Close("h:stopGo!", stopGo)
+			}
+			if err := p.Submit(ctx, f.typ, f.cbor, pcommon.Tip{}); err != nil {
+				rt.Log("submit %d error", i)
+			} else {
+				rt.Log("submit %d ok", i)
+			}
+		}
+		if stopAfter >= n {
+			rt.Close("h:stopGo!", stopGo)
+		}
+		if stopAfter < 0 {
+			dctx, cancel := vcontext.WithTimeout(ctx, 3*time.Second)
+			p.WaitForDrain(dctx)
+			cancel()
+			vtime.Sleep(200 * time.Millisecond)
+			p.Stop()
+		} else {
+			rt.Recv("h:stopped?", stopped)
+		}
+		rt.Recv("h:resDone?", resDone)
+		rt.Recv("h:errDone?", errDone)
+		rt.Log("end")
+	}
+	check := func(r *rt.Result) []rt.Finding {
+		if f := verdictFinding(r); f != nil {
+			return f
+		}
+		ended := false
+		results := map[int]int{}
+		errs := 0
+		for _, l := range r.Logs {
+			var k int
+			switch {
+			case strings.HasPrefix(l, "apply "):
+				return []rt.Finding{{Key: "c42:applied-invalid", What: "a block that fails validation was applied: " + strings.Join(r.Logs, " | ")}}
+			case strings.HasPrefix(l, "result "):
+				fmt.Sscanf(l, "result %d", &k)
+				results[k]++
+				if results[k] > 1 {
+					return []rt.Finding{{Key: "c42:result-twice", What: strings.Join(r.Logs, " | ")}}
+				}
+				if strings.HasSuffix(l, "applied=true") {
+					return []rt.Finding{{Key: "c42:applied-invalid", What: l}}
+				}
+			case l == "error reported":
+				errs++
+			case l == "end":
+				ended = true
+			}
+		}
+		if !ended {
+			return []rt.Finding{{Key: "c42:not-ended", What: "harness did not finish"}}
+		}
+		if stopAfter < 0 {
+			for i := 0; i < n; i++ {
+				if results[i] != 1 {
+					return []rt.Finding{{Key: "c42:no-result", What: fmt.Sprintf("item %d missing from results: %v", i, results)}}
+				}
+			}
+			if errs != n {
+				return []rt.Finding{{Key: "c42:validation-failure-not-reported", What: fmt.Sprintf("%d blocks failed validation, %d errors reported", n, errs)}}
+			}
+		}
+		return nil
+	}
+	return e1lib.Scenario{Name: name, Body: body, Check: check, Cfg: rt.Config{Horizon: 10 * time.Second}}
+}
+
 func TestC42(t *testing.T) {
 	e1lib.Main(t, "C42", func(thorough bool) []e1lib.Scenario {
 		var scs []e1lib.Scenario
@@ -226,6 +348,8 @@ func TestC42(t *testing.T) {
 		}
 		// several goroutines stopping at once
 		scs = append(scs, c42n("2stop@1-BS-w1", "BS", 1, 1, 2), c42n("2stop@0-B-w2", "B", 2, 0, 2))
+		// validation enabled, saturated stages, Start context outlives the pipeline
+		scs = append(scs, c42v("validate-n3-nostop", 3, -1), c42v("validate-n6-stop@6", 6, 6), c42v("validate-n6-stop@4", 6, 4))
 		if thorough {
 			scs = append(scs, c42n("3stop@1-BxS-w2", "BxS", 2, 1, 3))
 			scs = append(scs, c42("nostop-BSBSBS-w16", "BSBSBS", 16, -1), c42("stop@2-BSBx-w3", "BSBx", 3, 2))
@@ -369,11 +493,132 @@ func c43overflow(name string, workers, maxPending int, lazy []string) e1lib.Scen
 	return e1lib.Scenario{Name: name, Body: body, Check: check, Cfg: rt.Config{Horizon: 20 * time.Second, TimeJumps: true, Lazy: lazy}}
 }
 
+// c43hold: the apply function HOLDS every block for `hold` of virtual time (start and end are logged), so
+// the drain ticker fires while a block is inside ApplyFunc. Options: giveUp — before the drain, a
+// submitter gives up while WAITING FOR THE SUBMIT TOKEN (another one holds it, blocked on the full
+// pipeline): a failed submission must leave the in-flight bookkeeping untouched; stopAt >= 0 — another
+// goroutine calls Stop() at that virtual time while WaitForDrain is polling. Oracle: after WaitForDrain
+// returned nil no apply call of a block submitted before it starts, runs or ends.
+func c43hold(name string, n int, hold time.Duration, giveUp bool, stopAt time.Duration) e1lib.Scenario {
+	body := func() {
+		ctx := vcontext.Background()
+		gate := make(chan struct{})
+		p := pipeline.NewBlockPipeline(
+			pipeline.WithDecodeWorkers(1),
+			pipeline.WithPrefetchBufferSize(1),
+			pipeline.WithApplyFunc(func(b *pipeline.BlockItem) error {
+				if giveUp {
+					rt.Recv("h:gate", gate)
+				}
+				rt.Log("apply-start %d", b.SequenceNumber())
+				vtime.Sleep(hold)
+				rt.Log("apply-end %d", b.SequenceNumber())
+				return nil
+			}),
+		)
+		if err := p.Start(ctx); err != nil {
+			return
+		}
+		rt.Go("results", func() {
+			for range rt.Range("h:results", p.Results()) {
+			}
+		})
+		rt.Go("errors", func() {
+			for range rt.Range("h:errors", p.Errors()) {
+			}
+		})
+		f := fixtures['B']
+		for i := 0; i < n; i++ {
+			if err := p.Submit(ctx, f.typ, f.cbor, pcommon.Tip{}); err != nil {
+				rt.Log("submit %d error", i)
+			}
+		}
+		if giveUp {
+			// the pipeline is full (apply gated): A blocks on the full channel holding the token,
+			// B's context expires while it waits for the token
+			done := make(chan string, 2)
+			rt.Go("submitterA", func() {
+				if err := p.Submit(ctx, f.typ, f.cbor, pcommon.Tip{}); err != nil {
+					rt.Send("h:doneA", done, "A failed")
+				} else {
+					rt.Send("h:doneA", done, "A ok")
+				}
+			})
+			vtime.Sleep(time.Millisecond)
+			rt.Go("submitterB", func() {
+				sctx, cancel := vcontext.WithTimeout(ctx, 2*time.Millisecond)
+				err := p.Submit(sctx, f.typ, f.cbor, pcommon.Tip{})
+				cancel()
+				if err != nil {
+					rt.Send("h:doneB", done, "B failed")
+				} else {
+					rt.Send("h:doneB", done, "B ok")
+				}
+			})
+			vtime.Sleep(5 * time.Millisecond)
+			rt.Close("h:openGate", gate)
+			rt.Log("%s", rt.Recv("h:join", done))
+			rt.Log("%s", rt.Recv("h:join", done))
+			// let everything accepted so far finish, then one more block: the drain below must wait for it
+			// also while a decode worker holds it (a slow worker = one time-jump deviation)
+			vtime.Sleep(300 * time.Millisecond)
+			rt.Log("phase1 over")
+			if err := p.Submit(ctx, f.typ, f.cbor, pcommon.Tip{}); err != nil {
+				rt.Log("late submit error")
+			}
+		}
+		stopped := make(chan struct{})
+		if stopAt >= 0 {
+			rt.Go("stopper", func() {
+				vtime.Sleep(stopAt)
+				rt.Log("stop called")
+				p.Stop()
+				rt.Close("h:stopped", stopped)
+			})
+		}
+		dctx, cancel := vcontext.WithTimeout(ctx, 2*time.Second)
+		err := p.WaitForDrain(dctx)
+		cancel()
+		if err == nil {
+			rt.Log("drained")
+		} else {
+			rt.Log("drain error")
+		}
+		vtime.Sleep(300 * time.Millisecond)
+		if stopAt >= 0 {
+			rt.Recv("h:stopped?", stopped)
+		} else {
+			p.Stop()
+		}
+		rt.Log("end")
+	}
+	check := func(r *rt.Result) []rt.Finding {
+		if f := verdictFinding(r); f != nil {
+			return f
+		}
+		drained := false
+		for _, l := range r.Logs {
+			switch {
+			case l == "drained":
+				drained = true
+			case strings.HasPrefix(l, "apply-") && drained:
+				return []rt.Finding{{Key: "c43:apply-after-drain", What: "WaitForDrain returned nil and then " + l + " happened: " + strings.Join(tail(r.Logs, 14), " | ")}}
+			}
+		}
+		return nil
+	}
+	return e1lib.Scenario{Name: name, Body: body, Check: check, Cfg: rt.Config{Horizon: 20 * time.Second, TimeJumps: true}}
+}
+
 func TestC43(t *testing.T) {
 	e1lib.Main(t, "C43", func(thorough bool) []e1lib.Scenario {
 		scs := []e1lib.Scenario{c43("drain-B-w1", "B", 1), c43("drain-BS-w2", "BS", 2), c43("drain-xB-w1", "xB", 1),
 			c43overflow("overflow-w3-max1-lazy0", 3, 1, []string{"worker_pool.go:105#0"}),
-			c43overflow("overflow-w3-max1-lazy1", 3, 1, []string{"worker_pool.go:105#1"})}
+			c43overflow("overflow-w3-max1-lazy1", 3, 1, []string{"worker_pool.go:105#1"}),
+			c43hold("hold25ms-n2", 2, 25*time.Millisecond, false, -1),
+			c43hold("hold25ms-n4-token-giveup", 4, 25*time.Millisecond, true, -1),
+			c43hold("hold25ms-n2-stop@5ms", 2, 25*time.Millisecond, false, 5*time.Millisecond),
+			c43hold("hold25ms-n3-stop@12ms", 3, 25*time.Millisecond, false, 12*time.Millisecond)}
 		if thorough {
 			scs = append(scs, c43("drain-BSB-w2", "BSB", 2))
 		}
@@ -574,9 +819,142 @@ func c44two(name string, buf int) e1lib.Scenario {
 	return e1lib.Scenario{Name: name, Body: body, Check: check, Cfg: rt.Config{Horizon: 20 * time.Second}}
 }
 
+// c44id: every submission carries its own identity (Tip.BlockNumber = index). Submissions listed in
+// `expired` use a context that is ALREADY done when Submit is called (the pipeline has room, so the
+// enqueue and the context are both ready and the select may take either); `three` adds the
+// three-submitter situation: the pipeline is full (apply gated), A blocks holding the submit token,
+// B gives up while waiting for the token, C arrives while A is still blocked, then the gate opens.
+// Oracle: the blocks of exactly the submissions that returned nil are applied, each once, in
+// submission-return order for a single submitter; a submission that returned an error is never applied.
+func c44id(name string, n int, expired map[int]bool, three bool) e1lib.Scenario {
+	body := func() {
+		ctx := vcontext.Background()
+		gate := make(chan struct{})
+		gated := three
+		p := pipeline.NewBlockPipeline(
+			pipeline.WithDecodeWorkers(1),
+			pipeline.WithPrefetchBufferSize(1),
+			pipeline.WithApplyFunc(func(b *pipeline.BlockItem) error {
+				if gated {
+					rt.Recv("h:gate", gate)
+				}
+				rt.Log("apply id=%d", b.Tip().BlockNumber)
+				return nil
+			}),
+		)
+		if err := p.Start(ctx); err != nil {
+			return
+		}
+		rt.Go("results", func() {
+			for range rt.Range("h:results", p.Results()) {
+			}
+		})
+		rt.Go("errors", func() {
+			for range rt.Range("h:errors", p.Errors()) {
+			}
+		})
+		f := fixtures['B']
+		submit := func(c vcontext.Context, id int) {
+			if err := p.Submit(c, f.typ, f.cbor, pcommon.Tip{BlockNumber: uint64(id)}); err != nil {
+				rt.Log("submit id=%d error", id)
+			} else {
+				rt.Log("submit id=%d ok", id)
+			}
+		}
+		for i := 0; i < n; i++ {
+			if expired[i] {
+				cctx, cancel := vcontext.WithCancel(ctx)
+				cancel()
+				submit(cctx, i)
+			} else {
+				submit(ctx, i)
+			}
+		}
+		if three {
+			done := make(chan struct{}, 3)
+			rt.Go("submitterA", func() { submit(ctx, 100); rt.Send("h:done", done, struct{}{}) })
+			vtime.Sleep(time.Millisecond)
+			rt.Go("submitterB", func() {
+				sctx, cancel := vcontext.WithTimeout(ctx, 2*time.Millisecond)
+				submit(sctx, 101)
+				cancel()
+				rt.Send("h:done", done, struct{}{})
+			})
+			vtime.Sleep(4 * time.Millisecond)
+			rt.Go("submitterC", func() { submit(ctx, 102); rt.Send("h:done", done, struct{}{}) })
+			vtime.Sleep(2 * time.Millisecond)
+			rt.Close("h:openGate", gate)
+			for i := 0; i < 3; i++ {
+				rt.Recv("h:join", done)
+			}
+			submit(ctx, 103)
+		}
+		dctx, cancel := vcontext.WithTimeout(ctx, 3*time.Second)
+		p.WaitForDrain(dctx)
+		cancel()
+		vtime.Sleep(500 * time.Millisecond)
+		p.Stop()
+		rt.Log("end")
+	}
+	check := func(r *rt.Result) []rt.Finding {
+		if f := verdictFinding(r); f != nil {
+			return f
+		}
+		ok, failed, applied := map[int]bool{}, map[int]bool{}, map[int]int{}
+		var order []int
+		for _, l := range r.Logs {
+			var id int
+			switch {
+			case strings.HasPrefix(l, "apply id="):
+				fmt.Sscanf(l, "apply id=%d", &id)
+				applied[id]++
+				order = append(order, id)
+			case strings.HasSuffix(l, " ok"):
+				fmt.Sscanf(l, "submit id=%d ok", &id)
+				ok[id] = true
+			case strings.HasSuffix(l, " error"):
+				fmt.Sscanf(l, "submit id=%d error", &id)
+				failed[id] = true
+			}
+		}
+		ids := make([]int, 0, len(ok)+len(failed))
+		for id := range ok {
+			ids = append(ids, id)
+		}
+		for id := range failed {
+			ids = append(ids, id)
+		}
+		sort.Ints(ids)
+		for _, id := range ids {
+			switch {
+			case ok[id] && applied[id] == 0:
+				return []rt.Finding{{Key: "c44:accepted-block-never-applied", What: fmt.Sprintf("submission %d returned nil but its block was never applied: %s", id, strings.Join(r.Logs, " | "))}}
+			case applied[id] > 1:
+				return []rt.Finding{{Key: "c44:applied-twice", What: fmt.Sprintf("block %d applied %d times: %s", id, applied[id], strings.Join(r.Logs, " | "))}}
+			case failed[id] && applied[id] > 0:
+				return []rt.Finding{{Key: "c44:failed-submission-applied", What: fmt.Sprintf("submission %d returned an error but its block was applied: %s", id, strings.Join(r.Logs, " | "))}}
+			}
+		}
+		last := -1
+		for _, id := range order {
+			if id < 100 {
+				if id < last {
+					return []rt.Finding{{Key: "c44:apply-out-of-order", What: fmt.Sprint(order)}}
+				}
+				last = id
+			}
+		}
+		return nil
+	}
+	return e1lib.Scenario{Name: name, Body: body, Check: check, Cfg: rt.Config{Horizon: 20 * time.Second}}
+}
+
 func TestC44(t *testing.T) {
 	e1lib.Main(t, "C44", func(thorough bool) []e1lib.Scenario {
-		scs := []e1lib.Scenario{c44("full-buf1", 1), c44("full-buf2", 2), c44two("two-submitters-buf1", 1)}
+		scs := []e1lib.Scenario{c44("full-buf1", 1), c44("full-buf2", 2), c44two("two-submitters-buf1", 1),
+			c44id("expired-ctx-with-room-n4", 4, map[int]bool{1: true}, false),
+			c44id("expired-ctx-first-and-third-n5", 5, map[int]bool{0: true, 2: true}, false),
+			c44id("three-submitters-token-giveup", 4, nil, true)}
 		for i := range scs {
 			scs[i].MinB, scs[i].MaxB, scs[i].Budget = 0, 1, 50*time.Second
 			if thorough {
@@ -585,4 +963,11 @@ func TestC44(t *testing.T) {
 		}
 		return scs
 	})
+}
+
+func tail(s []string, n int) []string {
+	if len(s) > n {
+		return s[len(s)-n:]
+	}
+	return s
 }
